@@ -129,6 +129,11 @@ fn base_plans(tier: Tier) -> Vec<Plan> {
         Order::Asc,
         alphabet(mb.clone(), &W1, 1, true),
     ));
+    // names a listing might filter or split by mistake: leading dots, only dots, a backslash
+    let odd = Universe::new("U_odd{.a,.a/.b,...,a\\b,a\\b/c\\d}", &["/.a", "/.a/.b", "/...", "/a\\b", "/a\\b/c\\d"]);
+    v.push(plain(Cfg::Phys, Order::Asc, alphabet(odd.clone(), &W1, 1, false)));
+    v.push(plain(Cfg::alt(Cfg::Mem, "/Z"), Order::Asc, alphabet(odd.clone(), &W1, 1, false)));
+    v.push(plain(Cfg::alt(Cfg::Phys, "/Z"), Order::Asc, alphabet(odd.clone(), &W1, 1, false)));
     if tier == Tier::Thorough {
         v.push(plain(
             Cfg::alt(Cfg::Mem, ""),
@@ -274,10 +279,17 @@ fn overlay_plans(tier: Tier) -> Vec<Plan> {
     let subs = Cfg::Ov(vec![Cfg::sub(Cfg::Mem, "/rw"), Cfg::sub(Cfg::Mem, "/base/v1")]);
     v.push(populated(subs.clone(), Order::Asc, alphabet(u3(), &W1, 1, true), &u2, true));
     v.push(populated(Cfg::Ov(vec![Cfg::Phys, Cfg::sub(Cfg::Phys, "/image/base")]), Order::Asc, alphabet(u3(), &W1, 1, false), &u2, false));
+    // odd names (see base plans) in the layers of memory and physical overlays
+    let odd = Universe::new("U_odd{.a,.a/.b,...,a\\b}", &["/.a", "/.a/.b", "/...", "/a\\b"]);
+    v.push(populated(mem2(), Order::Asc, alphabet(odd.clone(), &W1, 1, false), &odd, false));
+    v.push(populated(phys2(), Order::Asc, alphabet(odd.clone(), &W1, 1, false), &odd, false));
+    // four levels: the parent chain that is copied up is three directories long
+    let chain4 = Universe::new("U_chain4{a,a/a,a/a/a,a/a/a/a}", &["/a", "/a/a", "/a/a/a", "/a/a/a/a"]);
+    v.push(populated(mem2(), Order::Asc, alphabet(chain4.clone(), &W1, 1, false), &chain4, false));
     // all layers are directories of ONE filesystem (how the crate's own tests build their overlays)
     let shared = |inner: Cfg, dirs: &[&str]| Cfg::OvShared(Box::new(inner), dirs.iter().map(|d| d.to_string()).collect());
     v.push(populated(shared(Cfg::Mem, &["/upper", "/lower"]), Order::Asc, alphabet(u3(), &W1, 2, true), &u2, true));
-    v.push(populated(shared(Cfg::Phys, &["/up", "/layers/low"]), Order::Asc, alphabet(u3(), &W1, 1, false), &u2, false));
+    v.push(populated(shared(Cfg::Phys, &["/up", "/layers/low"]), Order::Asc, alphabet(u3(), &W1, 2, false), &u2, false));
     v.push(populated(shared(Cfg::Mem, &["/u", "/m", "/l"]), Order::Asc, alphabet(u3(), &W1, 1, false), &u2, false));
     if tier == Tier::Thorough {
         v.push(populated(shared(Cfg::Mem, &["/u", "/m", "/l"]), Order::Asc, a3.clone(), &u3(), false));
@@ -528,6 +540,26 @@ fn spec_for(id: &str, tier: Tier) -> Spec {
                     false,
                 ),
             ];
+            // four layers, the same file with different bytes in the two bottom ones (which layer
+            // answers when the probe of the upper of the two fails?)
+            {
+                let layers: Vec<Vec<(String, Node)>> = vec![
+                    vec![],
+                    vec![("/b".to_string(), Node::Dir)],
+                    vec![("/a".to_string(), Node::File(b"mm".to_vec()))],
+                    vec![("/a".to_string(), Node::File(b"nnn".to_vec())), ("/b".to_string(), Node::Dir)],
+                ];
+                plans.push(Plan {
+                    cfg: Cfg::Ov(vec![Cfg::Mem, Cfg::Mem, Cfg::Mem, Cfg::Mem]),
+                    order: Order::Asc,
+                    alpha: alphabet(Universe::new("U2{a,b}", &["/a", "/b"]), &W1, 3, false),
+                    inits: vec![InitSpec {
+                        label: "{} over {/b/} over {/a=mm} over {/a=nnn,/b/}".into(),
+                        init: layers.iter().enumerate().map(|(i, l)| (i, l.clone())).collect(),
+                        model: Model::union_of(&layers),
+                    }],
+                });
+            }
             if thorough {
                 plans.push(plain(Cfg::Mem, Order::Desc, a(u22())));
                 plans.push(plain(Cfg::alt(Cfg::Phys, "/Z"), Order::Asc, a(u4())));
@@ -785,6 +817,36 @@ fn c12_extras(ctx: &Ctx) -> (Stats, Vec<Violation>) {
             f != TimeField::Created
         }));
     }
+    // read_to_string on contents that are not valid UTF-8 in every way there is: the error must
+    // carry the path of the call like any other
+    let mut pre: Vec<Violation> = vec![];
+    let mut pre_n = 0u64;
+    for (cfg, _, _) in &cfgs {
+        for content in [&b"caf\xc3"[..], &b"\xe2\x82"[..], &b"x\xf0\x9f\x98"[..], &b"\xff"[..], &b"a\x80b"[..], &b"\xc3\x28"[..], &b"\xed\xa0\x80"[..]] {
+            let b = build(cfg, Order::Asc, &vec![]);
+            let x = b.root.join("f").unwrap();
+            let _ = PathApi::write_file(&x, content);
+            pre_n += 1;
+            match PathApi::read_to_string(&x) {
+                Ok(sx) => pre.push(Violation {
+                    property: "C12".into(),
+                    signature: format!("{}|read_to_string|invalid-utf8|accepted", cfg.label()),
+                    summary: format!("read_to_string of {:?} returned {:?}", content, sx),
+                    replay: json!({"engine": "c12-extras", "configuration": cfg.label(), "content": content}),
+                }),
+                Err(e) => {
+                    for (k, w) in errpath_violations(&e, "/f", None, false) {
+                        pre.push(Violation {
+                            property: "C12".into(),
+                            signature: format!("{}|read_to_string|invalid-utf8|{}", cfg.label(), k),
+                            summary: format!("read_to_string of a file holding {:?}: {}", content, w),
+                            replay: json!({"engine": "c12-extras", "configuration": cfg.label(), "content": content}),
+                        });
+                    }
+                }
+            }
+        }
+    }
     let t = std::time::SystemTime::UNIX_EPOCH + std::time::Duration::from_secs(86_400);
     let work: Vec<(usize, usize)> = (0..cfgs.len())
         .flat_map(|c| (0..trees.len()).map(move |t| (c, t)))
@@ -887,8 +949,10 @@ fn c12_extras(ctx: &Ctx) -> (Stats, Vec<Violation>) {
             (n, vio)
         })
         .collect();
+    let mut res = res;
+    res.push((pre_n, pre));
     let mut st = Stats {
-        label: "C12 extras: setters / read_to_string / is_x on every path of every tree; walk_dir with a directory vanishing at every walker position".into(),
+        label: "C12 extras: setters / read_to_string / is_x on every path of every tree; read_to_string of invalid UTF-8; walk_dir with a directory vanishing at every walker position".into(),
         states: (trees.len() * cfgs.len()) as u64,
         fixpoint: true,
         ..Default::default()
